@@ -21,9 +21,17 @@ def translate(repo):
     items.append(typed("unpack_in_try", "bool", coq_bool("handler, args = raw_args" in tb)))
     items.append(typed("unbox_in_try", "bool", coq_bool("args = self._unbox(args)" in tb)))
     items.append(typed("handler_in_try", "bool", coq_bool("res = self._HANDLERS[handler](self, *args)" in tb)))
+    # nothing else may happen in the guarded region or on the way to the exception reply (e.g. a sequence number parked in an
+    # attribute that a nested dispatch overwrites): the statement lists are exactly these
+    extra_try = [x for x in tb if x not in ("handler, args = raw_args", "args = self._unbox(args)", "res = self._HANDLERS[handler](self, *args)")]
+    if extra_try:
+        raise Unrecognised("_dispatch_request: unexpected statement in the try body: " + extra_try[0][:60])
     if not (len(t.handlers) == 1 and t.handlers[0].type is None):
         raise Unrecognised("_dispatch_request: bare except expected")
     hb = t.handlers[0].body
+    plain = [u(x) for x in hb if not isinstance(x, ast.If)]
+    if plain[:-1] != ["t, v, tb = sys.exc_info()", "self._last_traceback = tb", "logger = self._config['logger']"]:
+        raise Unrecognised("_dispatch_request: unexpected statement in the except body: " + repr(plain)[:120])
     # the exception reply: either sent directly (unguarded encoding) or through a helper that guards the encoding
     last = hb[-1]
     direct = u(last) == "self._send(consts.MSG_EXCEPTION, seq, self._box_exc(t, v, tb))"
